@@ -24,7 +24,7 @@ func init() {
 				"of every fallible step that precedes it in its function, and every such step's error is checked; addRuleList keeps " +
 				"the previous list on each error edge. R4: the index conversion skips invalid entries and keeps converting the rest.",
 			NotCovered: "behaviour of the HTTP client under each fault kind; atomicity of renameio itself (trusted); disk-full and fsync semantics.",
-			Rules: map[string]string{"C13-R9": "an index key is converted to filter.ID only where the same field is validated by filter.NewID in the package", "C13-R10": "components with RefreshInitial are started through it in package cmd, never through their periodic Refresh", "C13-R1": "download / replace protocol tables", "C13-R2": "who may mutate files",
+			Rules: map[string]string{"C13-R11": "the periodic refresh worker: the loop ends only on shutdown, refreshes on every uninterrupted tick, survives a failed refresh; shutdown refresh exactly when configured; constructor field map", "C13-R9": "an index key is converted to filter.ID only where the same field is validated by filter.NewID in the package", "C13-R10": "components with RefreshInitial are started through it in package cmd, never through their periodic Refresh", "C13-R1": "download / replace protocol tables", "C13-R2": "who may mutate files",
 				"C13-R3": "commit only after success", "C13-R4": "invalid index entries skipped, not aborting",
 				"C13-R7": "exact HTTP status check; only the size-limited reader that fails at the limit is used on a list's path",
 				"C13-R6": "blocked-service index: any invalid entry rejects the whole update",
@@ -225,6 +225,8 @@ func c13Commit(c *an.Ctx, rule string, fn *ssa.Function, what string, commit ssa
 }
 
 func runC13(c *an.Ctx) {
+	c.Floor("C13-R11", 5)
+	refreshWorkerRules(c, "C13-R11")
 	// ---- R10: the storage (and every other component with a RefreshInitial) is started from what is cached
 	if n := sharedInitialRefresh(c, "C13-R10"); n < 4 {
 		c.Und("C13-R10", "start-up refreshes", token.NoPos, "only %d RefreshInitial calls found in package cmd (expected the rule-list storage and the three hash-prefix filters)", n)
@@ -613,6 +615,93 @@ func runC13(c *an.Ctx) {
 		},
 	})
 
+	// ---- R1d: the scheme decides the source: a file URI is read directly (always accepted, whatever its age),
+	// anything else goes through the cache file with the caller's staleness policy
+	decide(c, "C13-R1", rf+"Refresh", an.DecideCfg{
+		Dom: an.Domain{"isfile": an.Bools, "srcerr": an.Bools},
+		OnCall: func(it *an.Interp, name string, args []an.AV) (an.AV, bool) {
+			res := func(tag string) an.AV {
+				if it.Feature("srcerr").IsTrue() {
+					return an.AV{Kind: an.KTuple, Tup: []an.AV{an.CStr(""), an.NonNil("srcErr")}}
+				}
+				return an.AV{Kind: an.KTuple, Tup: []an.AV{an.Sym(tag), an.Nil()}}
+			}
+			switch {
+			case name == "strings.EqualFold":
+				a, b := args[0].String(), args[1].String()
+				if (a == "p0.url.Scheme" && b == `"file"`) || (b == "p0.url.Scheme" && a == `"file"`) {
+					return it.Feature("isfile"), true
+				}
+				return an.Sym("scheme test on " + a + "," + b), true
+			case strings.HasSuffix(name, ").refreshFromFileOnly"):
+				return res("filetext"), true
+			case strings.HasSuffix(name, ").useCachedOrRefreshFromURL"):
+				if args[2].String() != "p2" {
+					return an.Sym("staleness policy replaced by " + args[2].String()), true
+				}
+				return res("urltext"), true
+			case strings.HasSuffix(name, "errors.Annotate"):
+				return args[0], true
+			}
+			return an.AV{}, false
+		},
+		Expect: func(f an.Features, o an.AOutcome) string {
+			file, url := o.HasCall("(*filter/internal/refreshable.Refreshable).refreshFromFileOnly"), o.HasCall("(*filter/internal/refreshable.Refreshable).useCachedOrRefreshFromURL")
+			if f.B("isfile") != file || f.B("isfile") == url {
+				return fmt.Sprintf("file URI -> direct read only, otherwise cache/URL only (file=%v url=%v)", file, url)
+			}
+			if len(o.Ret) != 2 {
+				return "a (text, err) result"
+			}
+			if f.B("srcerr") {
+				if o.Ret[1].Kind != an.KNil && o.Ret[0].String() == `""` {
+					return ""
+				}
+				return "no text and an error when the source fails; got " + o.RetString()
+			}
+			want := "urltext, nil"
+			if f.B("isfile") {
+				want = "filetext, nil"
+			}
+			if o.RetString() != want {
+				return want + "; got " + o.RetString()
+			}
+			return ""
+		},
+	})
+	decide(c, "C13-R1", rf+"refreshFromFileOnly", an.DecideCfg{
+		Dom: an.Domain{"fileerr": an.Bools},
+		OnCall: func(it *an.Interp, name string, args []an.AV) (an.AV, bool) {
+			switch {
+			case strings.HasSuffix(name, ").refreshFromFile"):
+				if !args[1].IsTrue() || args[2].String() != "p0.url.Path" {
+					return an.Sym("file read with " + args[1].String() + "," + args[2].String()), true
+				}
+				if it.Feature("fileerr").IsTrue() {
+					return an.AV{Kind: an.KTuple, Tup: []an.AV{an.CStr(""), an.NonNil("fileErr")}}, true
+				}
+				return an.AV{Kind: an.KTuple, Tup: []an.AV{an.Sym("filetext"), an.Nil()}}, true
+			case name == "fmt.Errorf":
+				return an.NonNil("wrapped"), true
+			}
+			return an.AV{}, false
+		},
+		Expect: func(f an.Features, o an.AOutcome) string {
+			if len(o.Ret) != 2 {
+				return "a (text, err) result"
+			}
+			if f.B("fileerr") {
+				if o.Ret[1].Kind != an.KNil && o.Ret[0].String() == `""` {
+					return ""
+				}
+				return "no text and an error; got " + o.RetString()
+			}
+			if o.RetString() != "filetext, nil" {
+				return "the file's text (read from the URL's path, accepted whatever its age); got " + o.RetString()
+			}
+			return ""
+		},
+	})
 	// ---- R1c: the cache file is preferred when fresh, the URL used only when it yields nothing
 	decide(c, "C13-R1", rf+"useCachedOrRefreshFromURL", an.DecideCfg{
 		Dom: an.Domain{"fileerr": an.Bools, `(filetext == "")`: an.Bools, "urlerr": an.Bools},
